@@ -1,0 +1,32 @@
+//go:build verif
+
+package keeper
+
+// Contracts for the deductive checker in /verif (comment-only; compiled only with -tags verif).
+// C19, iteration helpers: GetTokenPairs enumerates the token-pair store for ExportGenesis; verified against the KV-iterator
+// model of /verif/specs/c19it instead of being assumed.
+
+/*@
+alias TokenPair github.com/haqq-network/haqq/x/erc20/types.TokenPair
+// protobuf decoding of a stored pair: a function of the bytes (codec assumed)
+uf tp_decode(b Bytes) TokenPair
+const glob_types_KeyPrefixTokenPair Bytes
+func (github.com/cosmos/cosmos-sdk/codec.BinaryCodec).MustUnmarshal
+    params cdc, bz, ptr
+    requires pair: typeis(ptr, *TokenPair)
+    modifies *cast(ptr, *TokenPair)
+    ensures *cast(ptr, *TokenPair) == tp_decode(bz)
+
+func (Keeper).IterateTokenPairs
+    inline
+
+// the result is the decoded enumeration of the pair store, entry by entry and in store order: nothing dropped, nothing added
+func (Keeper).GetTokenPairs
+    let it = ret(KVStorePrefixIterator, 1, 0)
+    let seq = iter_seq(it)
+    loop 1 invariant pos: 0 <= iter_pos[it] && iter_pos[it] <= kv_len(seq) && len(tokenPairs) == iter_pos[it]
+    loop 1 invariant elems: forall i int :: 0 <= i && i < len(tokenPairs) ==> tokenPairs[i] == tp_decode(kv_val(seq, i))
+    ensures which: seq == kvstore_seq(ctx_kvstore(ctx, k.storeKey), glob_types_KeyPrefixTokenPair)
+    ensures all: len(result) == kv_len(seq) && (forall i int :: 0 <= i && i < len(result) ==> result[i] == tp_decode(kv_val(seq, i)))
+    allow frame
+@*/
